@@ -9,10 +9,10 @@
 (* at an extreme" - and the rules are tight for n a power of two.          *)
 (***************************************************************************)
 EXTENDS Integers, Sequences, TLC, Json
-CONSTANTS W, NMAX
+CONSTANTS W, NMAX, FLO, FHI        \* formats: n_word <= W, -FLO <= n_frac <= n_word + FHI
 N == INSTANCE FxpN
 VARIABLES t, n, ph
-Fmts == { x \in [s : BOOLEAN, w : 1..W, f : 0..W] : x.f <= x.w }
+Fmts == { x \in [s : BOOLEAN, w : 1..W, f : (-FLO)..(W + FHI)] : x.f <= x.w + FHI }
 Init == t \in Fmts /\ n \in 1..NMAX /\ ph = 0
 Next == ph = 0 /\ ph' = 1 /\ UNCHANGED <<t, n>>
 Ext == {N!Lo(t), N!Hi(t)}
@@ -25,6 +25,18 @@ SumFits == \A v \in Vecs : N!InRange(N!ZSumSeq(v), SumFmt)
 ProdFits == (n * t.w <= 30) => \A v \in Vecs : N!InRange(N!ZProdSeq(v), ProdFmt)
 DotFits == (N!CeilLog2(n) + 2 * t.w <= 30) =>
               \A v \in Vecs, u \in Vecs : N!InRange(N!ZSumSeq([k \in 1..n |-> v[k] * u[k]]), DotFmt)
+\* cumprod: EVERY partial product must be representable in the result format.  "n words, n fractions" holds the last product only:
+\* with a negative integer length the first partial products are the largest, with a negative fraction length they are the finest.
+\* CumProdFmt is the rule of the library after repair D27 (TLC refutes the lemma for the old rule ProdFmt: CumProdOldRule below)
+Sg == IF t.s THEN 1 ELSE 0
+CumProdFmt == LET F == IF t.f >= 0 THEN n * t.f ELSE t.f
+                  NI == N!MaxI(n * t.w - Sg - n * t.f, t.w - Sg - t.f)
+              IN [s |-> t.s, w |-> Sg + NI + F, f |-> F]
+PrefixFits(v, i, tz) == LET p == [m |-> N!ZProdSeq(SubSeq(v, 1, i)), e |-> -(i * t.f) + tz.f] IN
+                        N!IsIntD(p) /\ N!InRange(N!FloorD(p), tz)
+Small == n * N!MaxI(t.w, t.f + 1) + (IF t.f < 0 THEN -(n * t.f) ELSE 0) <= 28         \* (native integers)
+CumProdFits == (Small /\ CumProdFmt.w >= 1) => \A v \in Vecs : \A i \in 1..n : PrefixFits(v, i, CumProdFmt)
+CumProdOldRule == (Small /\ CumProdFmt.w >= 1) => \A v \in Vecs : \A i \in 1..n : PrefixFits(v, i, ProdFmt)
 \* tight: one bit less would overflow at an extreme (n a power of two, n >= 2)
 SumTight == (n >= 2 /\ 2^N!CeilLog2(n) = n /\ t.s) =>
               \E v \in Vecs : ~N!InRange(N!ZSumSeq(v), [SumFmt EXCEPT !.w = SumFmt.w - 1])
@@ -37,6 +49,8 @@ I_SumFits == ph = 0 \/ SumFits
 I_ProdFits == ph = 0 \/ ProdFits
 I_DotFits == ph = 0 \/ DotFits
 I_SumTight == ph = 0 \/ SumTight
+I_CumProdFits == ph = 0 \/ CumProdFits
+I_CumProdOldRule == ph = 0 \/ CumProdOldRule
 I_FoldsAgree == ph = 0 \/ FoldsAgree
 Emit == ph = 0 \/ PrintT(ToJson([k |-> "reduce", s |-> t.s, w |-> t.w, f |-> t.f, n |-> n]))
 =============================================================================
